@@ -43,3 +43,25 @@ def tier2(tier, rng):
         parts = list(L.region_partitions(h, w))
         for rooms in (parts if th else L.sample(rng, parts, 3)):
             yield from _with_clues(rng, h, w, rooms, 1)
+
+
+def big(tier, rng):
+    """2 x N boards with a two-digit room clue (one room, or a big room and a small one): black cells on every
+    other cell of the top row; 5x5 / 4x6 boards with 3-4 rooms (only the grids the solver admits are checked)"""
+    th = tier == "thorough"
+    for n in (L.LONG if th else L.sample(rng, L.LONG, 3) + [21]):
+        evens = list(range(0, n, 2))
+        k = rng.randint(10, len(evens))
+        chosen = set(rng.sample(evens, k))
+        black = [1 if (y == 0 and x in chosen) else 0 for y in range(2) for x in range(n)]
+        rooms = [[[y, x] for y in range(2) for x in range(n)]]
+        yield {"h": 2, "w": n, "rooms": rooms, "clues": [k], "planted": [black]}
+        cut = n - 2
+        left = [[y, x] for y in range(2) for x in range(cut)]
+        right = [[y, x] for y in range(2) for x in range(cut, n)]
+        kl = sum(1 for x in chosen if x < cut)
+        yield {"h": 2, "w": n, "rooms": [left, right], "clues": [kl, -1], "planted": [black]}
+    for (h, w) in [(5, 5), (4, 6), (6, 4)]:
+        for _ in range(12 if th else 3):
+            rooms = L.random_rooms(rng, h, w, rng.choice([3, 4]))
+            yield {"h": h, "w": w, "rooms": rooms, "clues": [rng.choice([-1, -1, 1, 2, 3]) for _ in rooms]}
